@@ -544,6 +544,27 @@ def step (st : St) (line : String) : St × String :=
       | (some (score, mv), s) => ({ st with eng := { st.eng with search := s } }, both s!"{score} {optMvText mv} nodes={s.nodes} rep={s.rep.length}" "?")
       | (none, s) => ({ st with eng := { st.eng with search := s } }, both "?" "?")
     | none => (st, modelOnly "bad-op")
+  | ["eng.deeper"] =>
+    -- cumulative count of probes answered from a record DEEPER than requested, on the engine's own searcher (tie)
+    (st, both (toString st.eng.search.deeperHits) "?")
+  | ["eng.judged", d, score, deeper] =>
+    -- C09 at the level of the search, any depth (theorem Props/C09Search.lean: find_best_move_value_history): after a position
+    -- command on an engine whose table was empty, a completed depth-d search that reused no deeper record reports the value of
+    -- the minimax tree in which every position that occurred at least twice in (history given with the command + the position
+    -- searched) is a leaf worth 0 below the root — compared as won/lost beyond the window
+    match d.toNat?, score.toInt?, deeper.toNat?, st.specPos with
+    | some d, some reported, some 0, some root =>
+      let k := zkeysOf (st.engKeys.getD st.eng.newGames defaultKeys)
+      let G := chessGame st.mg k
+      let stack := posText root 0 0 :: st.specHist
+      let drawn (q : Board) : Bool := decide ((stack.filter (· == posText (Spec.abs q) 0 0)).length ≥ 2)
+      match (Spec.Vdb G drawn 2000 d true st.eng.board SPEC_BUDGET).1 with
+      | some v =>
+        if scoreClass v == scoreClass reported then (st, both "ok" "ok")
+        else (st, both "ok" s!"DEPTH-{d}-VALUE-WITH-GAME-HISTORY expected={v} reported={reported}")
+      | none => (st, both "ok" "?")
+    | some _, some _, some _, _ => (st, both "ok" "?")   -- a deeper record was reused: outside the property, tied to the model only
+    | _, _, _, _ => (st, modelOnly "bad-op")
   | ["eng.judgelegal", mv] =>
     -- C03 through the engine's own position command: the move the engine answered must be legal BY THE RULES in the position
     -- the rules prescribe for the last position command (the engine's own board is not consulted)
